@@ -764,6 +764,9 @@ mod pattern_impl {
         // For reverse searching
         reverse_pos: usize,
         reverse_done: bool,
+        // Start of the match most recently reported by next_back. Matches are
+        // reported last to first, so only matches starting before it remain.
+        reverse_last_start: Option<usize>,
     }
 
     impl<'r, 't> RegexSearcher<'r, 't> {
@@ -776,14 +779,16 @@ mod pattern_impl {
                 done: false,
                 reverse_pos: haystack.len(),
                 reverse_done: false,
+                reverse_last_start: None,
             }
         }
 
         fn find_last_match_before(&self, pos: usize) -> Option<super::Match> {
             // Find all matches up to the given position and return the last one
+            // that has not been reported yet.
             let mut last_match = None;
             for m in self.regex.find_from(self.haystack, 0) {
-                if m.end() <= pos {
+                if m.end() <= pos && self.reverse_last_start.is_none_or(|s| m.start() < s) {
                     last_match = Some(m);
                 } else {
                     break;
@@ -876,23 +881,10 @@ mod pattern_impl {
                     return SearchStep::Reject(reject_start, reject_end);
                 }
 
-                // Return the match
+                // Return the match. A zero-width match leaves reverse_pos where it is;
+                // remembering its start keeps it from being reported again.
                 self.reverse_pos = match_start;
-
-                // Handle zero-width matches
-                if match_start == match_end {
-                    // For zero-width matches, move back by one character
-                    if match_start > 0 {
-                        let mut prev_pos = match_start - 1;
-                        while prev_pos > 0 && !self.haystack.is_char_boundary(prev_pos) {
-                            prev_pos -= 1;
-                        }
-                        self.reverse_pos = prev_pos;
-                    } else {
-                        // We're at the beginning of the string
-                        self.reverse_done = true;
-                    }
-                }
+                self.reverse_last_start = Some(match_start);
 
                 SearchStep::Match(match_start, match_end)
             } else {
